@@ -13,6 +13,10 @@ def run(chk):
                 "backward / gradient read; distinct = distinct operation lines.")
     chk.obligations(MODS, drivers=_graph.DRIVERS)
     _graph.run_family(chk, {"C05"})
+    # creating nodes computes nothing, for the built-in functions: every function program of the gradient-case table is built
+    # on a device that counts its allocations — none may happen before the first value is requested
+    from props import _alloc
+    _alloc.run_alloc(chk, 1 if chk.tier == "quick" else 10, props=("C05",), mode="lazy")
     finish_obligations(chk)
     chk.trusted += ["modelled, not verified: Graph::add_operator/forward/backward are hand-modelled in Lean (Model/Graph.lean, generic in the tensor type) and tied to graph.cc by the correspondence run; user-defined operators stand in for the built-in ones in this family",
                     "that cached values are not mutated through aliases is property C07 (copy-on-write), used here as a lemma"]
